@@ -1,7 +1,142 @@
-// correspondence + search binary for property C07 (stub)
+// C07 — river equity = exact win/loss enumeration, invariant under suit relabeling; turn histogram.
+// Correspondence: real Observation::equity / Abstraction::from / Histogram::from vs the Lean model.
+// Search oracle (independent): true poker-rules enumeration over all unseen two-card holdings,
+// bit-identical f32 on all 24 relabelings, bucket and 46-child histogram constant on the class.
+use robopoker::cards::hand::Hand;
+use robopoker::cards::observation::Observation;
+use robopoker::cards::permutation::Permutation;
+use robopoker::clustering::abstraction::Abstraction;
+use robopoker::clustering::histogram::Histogram;
+use rpharness::*;
+
+fn deck_mask() -> u64 {
+    u64::from(Hand::from(Hand::mask()))
+}
+fn obs(pocket: u64, public: u64) -> Observation {
+    Observation::from((Hand::from(pocket), Hand::from(public)))
+}
+fn hist_of(o: &Observation) -> Vec<(usize, usize)> {
+    let h = Histogram::from(*o);
+    let mut v: Vec<(usize, usize)> = h.verif_counts().into_iter().map(|(a, c)| (a.index(), c)).collect();
+    v.sort();
+    v
+}
+
 fn main() {
-    let a = rpharness::args();
-    let mut run = rpharness::Run::new(&a.out);
-    run.rule = "stub".into();
+    let a = args();
+    let mut rng = Rng::new(a.seed);
+    let mut run = Run::new(&a.out);
+    quiet_panics();
+    let short = is_shortdeck();
+    let deck = if short { "short" } else { "std" };
+    let full = deck_mask();
+    let nriver = if a.thorough() { 20000 } else { 1200 };
+    let nturn = if a.thorough() { 300 } else { 12 };
+    let perms = Permutation::exhaust();
+    run.rule = format!("{nriver} random river observations (structured: 40% with >=3 board cards of one suit, 20% paired boards, rest uniform) and {nturn} random turn observations of the configured deck; each river observation: real equity + bucket on the original and on all 24 suit relabelings, independent rules oracle over all unseen two-card holdings; each turn observation: real 46-child histogram on the original and 5 relabelings; non-trivial = equity strictly between 0 and 1; distinct by observation");
+    let gen_obs = |rng: &mut Rng, nboard: usize| -> (u64, u64) {
+        let style = rng.below(10);
+        let mut public = 0u64;
+        if style < 4 {
+            // flush-heavy board: 3..nboard cards of one suit
+            let suit = rng.below(4);
+            let suit_mask = (0..13).fold(0u64, |m, r| m | 1u64 << (4 * r + suit)) & full;
+            let k = 3 + rng.below((nboard - 2) as u64) as usize;
+            public = rng.cards(k.min(nboard), suit_mask);
+        } else if style < 6 {
+            // paired board
+            let r = loop { let r = rng.below(13); if (0xFu64 << (4 * r)) & full != 0 { break r; } };
+            public = rng.cards(2, (0xFu64 << (4 * r)) & full);
+        }
+        let missing = nboard - public.count_ones() as usize;
+        public |= rng.cards(missing, full & !public);
+        let pocket = rng.cards(2, full & !public);
+        (pocket, public)
+    };
+    for _ in 0..nriver {
+        let (pocket, public) = gen_obs(&mut rng, 5);
+        let o = obs(pocket, public);
+        run.evaluations += 1;
+        let eq = match catch(|| o.equity()) { Some(e) => e, None => { run.line(&format!("equity {deck} {pocket} {public}"), "panic"); run.fail("equity-panics", &format!("{pocket} {public}"), "a value", "panic"); continue; } };
+        let bucket = catch(|| Abstraction::from(eq).index());
+        run.line(&format!("equity {deck} {pocket} {public}"), &format!("{} {}", eq.to_bits(), bucket.map(|b| b.to_string()).unwrap_or("panic".into())));
+        // --- oracle: true enumeration
+        let seen = pocket | public;
+        let hero = poker::best5(seen, short);
+        let unseen: Vec<u8> = (0..52u8).filter(|c| (full & !seen) >> c & 1 == 1).collect();
+        let (mut w, mut t, mut only_flush_ties) = (0u32, 0u32, true);
+        let (mut we, mut te) = (0u32, 0u32); // what the engine's own comparison gives (for classification)
+        let hs = robopoker::cards::strength::Strength::from(Hand::from(seen));
+        for i in 0..unseen.len() {
+            for j in i + 1..unseen.len() {
+                let v = public | 1u64 << unseen[i] | 1u64 << unseen[j];
+                let vb = poker::best5(v, short);
+                let truth = hero.cmp(&vb);
+                if truth != std::cmp::Ordering::Equal { t += 1; }
+                if truth == std::cmp::Ordering::Greater { w += 1; }
+                let vs = robopoker::cards::strength::Strength::from(Hand::from(v));
+                let eng = hs.cmp(&vs);
+                if eng != std::cmp::Ordering::Equal { te += 1; }
+                if eng == std::cmp::Ordering::Greater { we += 1; }
+                if eng != truth {
+                    let fl = if short { 6 } else { 5 };
+                    let both_flush_same_top = hero.0 == fl && vb.0 == fl && hero.1[0] == vb.1[0] && eng == std::cmp::Ordering::Equal;
+                    if !both_flush_same_top { only_flush_ties = false; }
+                }
+            }
+        }
+        run.spec_checked += 1;
+        let want = if t == 0 { 0.5f32 } else { w as f32 / t as f32 };
+        let nvill = unseen.len() * (unseen.len() - 1) / 2;
+        run.count(&format!("villain-holdings={nvill}"));
+        if eq.to_bits() != want.to_bits() {
+            let input = format!("river pocket={pocket} public={public} ({})", o);
+            if (we, te) != (w, t) && only_flush_ties && eq.to_bits() == (if te == 0 { 0.5f32 } else { we as f32 / te as f32 }).to_bits() {
+                run.fail("equity-flush-lower-cards-ignored", &input, &format!("{w}/{t} = {want}"), &format!("{we}/{te} = {eq}"));
+            } else {
+                run.fail("equity-not-exact-enumeration", &input, &format!("{w}/{t} = {want}"), &format!("{eq}"));
+            }
+        }
+        if !(eq >= 0.0 && eq <= 1.0) {
+            run.fail("equity-out-of-range", &format!("{pocket} {public}"), "in [0,1]", &format!("{eq}"));
+        }
+        if eq > 0.0 && eq < 1.0 { run.distinct(&(pocket, public)); }
+        run.count(&format!("equity-decile={}", ((eq * 10.0) as u32).min(9)));
+        // --- invariance on all 24 relabelings (bit-identical f32, same bucket)
+        for p in perms.iter() {
+            let o2 = p.permute(&o);
+            let e2 = catch(|| o2.equity());
+            run.spec_checked += 1;
+            if e2.map(|e| e.to_bits()) != Some(eq.to_bits()) {
+                run.fail("equity-depends-on-suits", &format!("river {} relabeled to {}", o, o2), &format!("{eq}"), &format!("{:?}", e2));
+                break;
+            }
+        }
+    }
+    for _ in 0..nturn {
+        let (pocket, public) = gen_obs(&mut rng, 4);
+        let o = obs(pocket, public);
+        run.evaluations += 1;
+        let h = match catch(|| hist_of(&o)) { Some(h) => h, None => { run.line(&format!("hist {deck} {pocket} {public}"), "panic"); continue; } };
+        run.line(&format!("hist {deck} {pocket} {public}"), &h.iter().map(|(i, c)| format!("{i}:{c}")).collect::<Vec<_>>().join(","));
+        run.spec_checked += 1;
+        let nchild: usize = h.iter().map(|x| x.1).sum();
+        let expect_children = (full & !(pocket | public)).count_ones() as usize;
+        if nchild != expect_children {
+            run.fail("histogram-wrong-mass", &format!("turn {o}"), &format!("{expect_children} children"), &format!("{nchild}"));
+        }
+        for _ in 0..5 {
+            let p = perms[rng.below(24) as usize];
+            let o2 = p.permute(&o);
+            let h2 = catch(|| hist_of(&o2));
+            run.spec_checked += 1;
+            if h2.as_ref() != Some(&h) {
+                run.fail("histogram-depends-on-suits", &format!("turn {} relabeled to {}", o, o2), &format!("{:?}", h), &format!("{:?}", h2));
+                break;
+            }
+        }
+        run.distinct(&(pocket, public, 4));
+        run.count("turn-histograms");
+    }
     run.finish();
 }
